@@ -14,6 +14,10 @@ Shape (A), two explorations executed on the real ``SourceCatalog`` /
    properties they create.  The variants contain sources for every exceptional
    branch of the per-source loops (variant ``hard6``) and the index forms isolate
    every position, so a result that leaks from one source to the next is seen.
+   An index form is a VALUE (which positions, which order) in a CONTAINER (Python
+   int / list / bools, numpy scalars and arrays of several integer widths, 0-d
+   array, list of numpy scalars ...): the two are crossed in full, and what an
+   index means is what numpy does with the same object on ``np.arange(n)``.
 2. *extra-property independence*: breadth-first search over histories of
    add / overwrite / rename / remove extra property, photometry-with-name,
    index, copy, to_table on parent and child with ``__dict__``-digest
@@ -33,7 +37,23 @@ RULE = ('commutation: full product catalog variant x pre-cache set x index form 
         '(build, pre-cache, index, evaluate) executed on the real objects and compared with the value of a fresh '
         'catalog taken at the same positions.  "property" includes the per-source results of the public methods that '
         'take an argument (fluxfrac_radius, circular_photometry, kron_photometry, make_*_apertures, make_cutouts, '
-        'to_table; small argument alphabets) and the extra properties those methods create with name=.  The index '
+        'to_table; small argument alphabets) and the extra properties those methods create with name=.  An index form '
+        'is an index VALUE in a CONTAINER: besides the everyday forms (Python int at every position, slices, list, int64 '
+        'array, bool array, get_label(s)/get_id(s), chains of two) the full product of values {integer sequences: '
+        'reordered, one element, repeated, negative, n zeros-and-ones meant as positions, empty; masks: 101.., 010.., all '
+        'True, all False; integer scalars 1 and -1; slices with negative / beyond-the-end / numpy-integer bounds, empty '
+        'slice; labels at positions [2,0] and [1]} x containers {list, tuple, int64 / int32 / int8 / uint8 / uint64 / '
+        'float64 array, list of np.int64 / np.uint8; bool array, list of bool, list of np.bool_, tuple of bool; int, '
+        'np.int64 / int32 / int8 / uint8 / uint64, 0-d array, 1-tuple, bool; for get_label(s)/get_id(s): int, numpy '
+        'scalars, list, tuple, arrays, list of numpy scalars} is explored with everything cached (both tiers) and with '
+        'nothing / only p cached (thorough; quick: one form per container resp. per kind of container); with a single '
+        'attribute cached: one form per container (thorough, private attribute) / per kind of container (thorough, '
+        'public) / a list of bools (quick).  The meaning of an index is '
+        'numpy\'s: positions = np.arange(n)[index]; a form for which numpy raises, returns a 2-D result, or that selects '
+        'zero sources, a container that cannot hold the value, and tuples in __getitem__ are enumerated but counted as '
+        'skipped with the reason (coverage.index_forms_not_a_selection_n4).  Clause "selection": the child\'s labels / '
+        'ids and isscalar are those of numpy\'s selection (reported once per kind of index instead of once per '
+        'property).  The index '
         'forms put every position of the catalog alone into a scalar child, and the catalog variants contain, besides '
         'ordinary sources, one source for each exceptional branch of the per-source loops (completely masked, '
         'non-finite centroid, quadratic fit fails, no flux-fraction radius solution, minimum Kron radius, minimum '
@@ -45,6 +65,14 @@ RULE = ('commutation: full product catalog variant x pre-cache set x index form 
         'excluded); non-trivial when the history contains an index and a mutation after it; every photometry method '
         'run in a history is also compared per source with the fresh full catalog')
 ASSUMPTIONS = ['numpy fancy indexing of a plain array / list comprehension is the reference for "take"',
+               'what an index object means (mask or positions, scalar or sequence, valid or not) is what numpy does with '
+               'that very object on np.arange(n) -- "cat.p[idx]" in the statement is numpy indexing of a per-source array',
+               'an index that selects zero sources is outside the statement: neither class can represent a catalog '
+               'without sources (SourceCatalog: ValueError for a segmentation image without labels; ApertureStats fails '
+               'on an aperture without positions); the pinned tree builds such a child and most of its properties raise',
+               'a tuple passed to __getitem__ is not one of the index forms of the statement (numpy reads it as a '
+               'multi-dimensional index); get_labels / get_ids document "list, tuple, or ndarray of int" and are explored '
+               'with all three',
                'a property value of a fresh catalog (only that property read) is the reference for the parent value; '
                'C07/C16 judge whether that value is right',
                'evaluating one property on the child after restoring its __dict__ (and the content of its '
@@ -224,8 +252,135 @@ def nsources(cls, variant):
 
 
 # ============================================================================ index forms
-def index_forms(n):
-    """JSON-able index specifications valid for a catalog of n sources (simplest first)."""
+# An index has a VALUE (which positions, in which order) and a CONTAINER (the Python / numpy type that carries it).
+# numpy decides what an index means from both -- [True, False, True] is a mask whether it is an ndarray or a plain list,
+# [1, 0, 1] is a list of positions whether its items are Python ints or uint8 -- so the container is an axis of the
+# space of "index forms", crossed in full with the values.  What an index means is never written down here: it is what
+# numpy does with the very same object on ``np.arange(n)`` (``select``).
+SCALAR_CONTAINERS = ('int', 'np.int64', 'np.int32', 'np.int8', 'np.uint8', 'np.uint64', 'array0d:int64', 'tuple1', 'bool')
+SEQ_CONTAINERS = ('list', 'tuple', 'array:int64', 'array:int32', 'array:int8', 'array:uint8', 'array:uint64',
+                  'list:np.int64', 'list:np.uint8', 'array:float64')
+MASK_CONTAINERS = ('array:bool', 'list:bool', 'list:np.bool_', 'tuple:bool')
+# get_label / get_id take "int"; get_labels / get_ids are documented for "list, tuple, or ndarray of int" (and are what
+# get_label / get_id call with a single number)
+LABEL_CONTAINERS = ('int', 'np.int64', 'np.int32', 'np.uint8')
+LABELS_CONTAINERS = ('list', 'tuple', 'array:int64', 'array:int32', 'array:uint8', 'list:np.int64', 'scalar:int')
+
+
+class Rejected(Exception):
+    """The index form is not a selection of >= 1 sources (reason in args[0])."""
+
+
+def _np_type(name):
+    return getattr(np, name.split('.')[-1])
+
+
+def _carry(container, values):
+    """Put integer / 0-1 values into a container.  Raises Rejected if the container cannot hold them."""
+    try:
+        if container in ('list', 'tuple'):
+            return (list if container == 'list' else tuple)(int(v) for v in values)
+        if container in ('list:bool', 'tuple:bool'):
+            return (list if container == 'list:bool' else tuple)(bool(v) for v in values)
+        if container.startswith('list:'):
+            t = _np_type(container[5:])
+            out = [t(v) for v in values]
+        elif container.startswith('array:'):
+            t = _np_type(container[6:])
+            out = np.array([t(v) for v in values], dtype=t)
+        else:
+            raise KeyError(container)
+    except (OverflowError, ValueError) as e:
+        raise Rejected(f'container {container} cannot hold the values ({type(e).__name__})')
+    if [int(v) for v in out] != [int(v) for v in values]:
+        raise Rejected(f'container {container} cannot hold the values (wrapped)')
+    return out
+
+
+def _carry_scalar(container, k):
+    try:
+        if container == 'int':
+            return int(k)
+        if container == 'bool':
+            if k not in (0, 1):
+                raise Rejected('container bool cannot hold the value')
+            return bool(k)
+        if container == 'tuple1':
+            return (int(k),)
+        if container.startswith('array0d:'):
+            return np.array(int(k), dtype=_np_type(container[8:]))
+        out = _np_type(container)(k)
+    except OverflowError as e:
+        raise Rejected(f'container {container} cannot hold the value ({type(e).__name__})')
+    if int(out) != int(k):
+        raise Rejected(f'container {container} cannot hold the value (wrapped)')
+    return out
+
+
+def build_index(form):
+    """The Python object that a (non-label, non-chain) index form stands for."""
+    kind = form[0]
+    if kind == 'int':
+        return form[1]
+    if kind == 'npint':
+        return np.int64(form[1])
+    if kind == 'slice':
+        return slice(form[1], form[2], form[3])
+    if kind == 'nslice':                       # slice whose bounds are numpy integers
+        return slice(*(None if b is None else np.int64(b) for b in form[1:4]))
+    if kind == 'list':
+        return list(form[1])
+    if kind == 'array':
+        return np.array(form[1])
+    if kind == 'bool':
+        return np.array(form[1], dtype=bool)
+    if kind == 'iscalar':
+        return _carry_scalar(form[1], form[2])
+    if kind in ('iseq', 'mask'):
+        return _carry(form[1], form[2])
+    raise KeyError(kind)
+
+
+def form_tag(form):
+    """Short name of the kind of index (part of the violation site of the 'selection' clause)."""
+    if form[0] == 'chain':
+        return f'chain({form_tag(form[1])},{form_tag(form[2])})'
+    if form[0] in ('iscalar', 'iseq', 'mask', 'xlabel', 'xlabels'):
+        return f'{form[0]}[{form[1]}]'
+    return form[0]
+
+
+def container_forms(n):
+    """Value x container product (simplest first).  Values, for n >= 3: integer sequences [2, 0] (reordered), [1] (one
+    source, non-scalar child), [n-1, 1, 1] (repeat), [-1, 0] (negative), [1, 0, 1, 0...] (n zeros / ones that are
+    POSITIONS, not a mask), [] ; masks 101 0.., 010 0.., all True, all False; integer scalars 1 and -1; slices with
+    negative / out-of-range / numpy-integer bounds and an empty one; labels at positions [2, 0] and [1]."""
+    if n == 1:
+        seqs, masks, scalars = [[0], [-1], [0, 0], []], [[1], [0]], [0, -1]
+        slices = [['slice', -1, None, None], ['slice', 0, 5, None], ['nslice', 0, 1, None], ['slice', 0, 0, None]]
+        labseqs, labpos = [[0]], 0
+    else:
+        seqs = [[2, 0], [1], [n - 1, 1, 1], [-1, 0], [1, 0, 1] + [0] * (n - 3), []]
+        masks = [[1, 0, 1] + [0] * (n - 3), [0, 1] + [0] * (n - 2), [1] * n, [0] * n]
+        scalars = [1, -1]
+        slices = [['slice', -2, None, None], ['slice', None, -1, None], ['slice', 1, n + 5, None], ['nslice', 0, 2, None],
+                  ['nslice', None, None, -1], ['slice', 1, 1, None]]
+        labseqs, labpos = [[2, 0], [1]], 1
+    forms = [['mask', c, m] for m in masks for c in MASK_CONTAINERS]
+    forms += [['iseq', c, v] for v in seqs for c in SEQ_CONTAINERS]
+    forms += [['iscalar', c, k] for k in scalars for c in SCALAR_CONTAINERS]
+    forms += slices
+    forms += [['xlabel', c, labpos] for c in LABEL_CONTAINERS]
+    forms += [['xlabels', c, v] for v in labseqs for c in LABELS_CONTAINERS if not (c == 'scalar:int' and len(v) != 1)]
+    if n > 1:
+        forms += [['chain', ['mask', 'list:bool', [1] * n], ['iscalar', 'np.int32', n - 1]],
+                  ['chain', ['iseq', 'list', [2, 0, 1]], ['mask', 'list:bool', [1, 0, 1]]],
+                  ['chain', ['iseq', 'array:uint8', [2, 0, 1]], ['xlabels', 'tuple', [0, 2]]]]
+    return forms
+
+
+def base_forms(n):
+    """The index forms in their everyday containers (Python int, slice of Python ints, list, int64 / bool ndarray)."""
     if n == 1:
         return [['int', 0], ['int', -1], ['npint', 0], ['slice', 0, 1, None], ['slice', None, None, -1], ['list', [0]],
                 ['bool', [1]], ['label', 0], ['labels', [0]], ['chain', ['slice', 0, None, None], ['int', 0]]]
@@ -241,47 +396,90 @@ def index_forms(n):
     return forms
 
 
+def index_forms(n):
+    """JSON-able index specifications for a catalog of n sources (simplest first): the everyday forms, then the
+    value x container product.  Forms that numpy itself does not accept as a selection of sources are part of the list;
+    ``select`` names the reason and they are counted as skipped."""
+    base = base_forms(n)
+    return base + [f for f in container_forms(n) if f not in base]
+
+
+def representative_forms(n):
+    """One form per container (the first = simplest value it occurs with)."""
+    seen, out = set(), []
+    for f in container_forms(n):
+        tag = form_tag(f)
+        if tag not in seen and f[0] != 'chain':
+            seen.add(tag)
+            out.append(f)
+    return out
+
+
+EMPTY = ('selects zero sources: a catalog without sources is not an object of either class (SourceCatalog rejects a '
+         'segmentation image without labels, ApertureStats cannot be built from an aperture without positions)')
+
+
+# Measured on the pinned tree: cat[(1,)] works while nothing is cached and raises AttributeError once a list-valued
+# property is cached; tuples of length >= 2 are rejected by numpy itself.
+TUPLE = ('a tuple is numpy\'s multi-dimensional index (a[(2, 0)] is a[2, 0]), not one of the index forms of the statement '
+         '(integer, slice, integer list, boolean mask); tuples are explored where they are documented: get_labels / get_ids')
+
+
 def positions(form, pos):
-    """Reference semantics of an index form on the list of positions ``pos`` -> int (scalar child) or list."""
+    """Reference semantics of an index form on the list of positions ``pos`` -> int (scalar child) or list: what numpy
+    returns for the same index object applied to ``np.array(pos)``.  Raises Rejected where that is not a selection."""
     kind = form[0]
-    if kind in ('int', 'npint', 'label'):
-        return pos[form[1]]
-    if kind == 'slice':
-        return pos[slice(form[1], form[2], form[3])]
-    if kind in ('list', 'array', 'labels'):
-        return [pos[i] for i in form[1]]
-    if kind == 'bool':
-        return [p for p, b in zip(pos, form[1]) if b]
+    if isinstance(pos, int):
+        raise Rejected('a scalar catalog cannot be indexed (documented TypeError)')
+    if kind in ('iscalar', 'iseq', 'mask') and form[1].startswith('tuple'):
+        raise Rejected(TUPLE)
     if kind == 'chain':
-        first = positions(form[1], pos)
-        return positions(form[2], first)
-    raise KeyError(kind)
+        return positions(form[2], positions(form[1], pos))
+    if kind in ('label', 'xlabel'):            # the label is looked up at that position of the catalog
+        return pos[form[-1]]
+    if kind in ('labels', 'xlabels'):
+        if kind == 'xlabels' and form[1] == 'scalar:int':
+            return pos[form[2][0]]
+        return [pos[i] for i in form[-1]]
+    idx = build_index(form)
+    try:
+        r = np.array(pos, dtype=int)[idx]
+    except IndexError as e:
+        raise Rejected(f'numpy rejects this index for a 1-D array (IndexError: {str(e)[:60]})')
+    if r.ndim == 0:
+        return int(r)
+    if r.ndim > 1:
+        raise Rejected(f'numpy does not read this index as a selection of sources (result has {r.ndim} dimensions)')
+    return [int(x) for x in r]
+
+
+def select(form, n):
+    """-> ('ok', int | non-empty list of positions) or ('skip', reason)."""
+    try:
+        sel = positions(form, list(range(n)))
+    except Rejected as e:
+        return 'skip', e.args[0]
+    if not isinstance(sel, int) and len(sel) == 0:
+        return 'skip', EMPTY
+    return 'ok', sel
 
 
 def apply_index(cat, form, cls):
     kind = form[0]
-    if kind == 'int':
-        return cat[form[1]]
-    if kind == 'npint':
-        return cat[np.int64(form[1])]
-    if kind == 'slice':
-        return cat[slice(form[1], form[2], form[3])]
-    if kind == 'list':
-        return cat[list(form[1])]
-    if kind == 'array':
-        return cat[np.array(form[1])]
-    if kind == 'bool':
-        return cat[np.array(form[1], dtype=bool)]
-    if kind in ('label', 'labels'):
+    if kind in ('label', 'labels', 'xlabel', 'xlabels'):
         names = np.atleast_1d(cat.labels if cls == 'SC' else cat.ids)
-        if kind == 'label':
-            lab = int(names[form[1]])
+        if kind in ('label', 'xlabel'):
+            lab = int(names[form[-1]])
+            if kind == 'xlabel':
+                lab = _carry_scalar(form[1], lab)
             return cat.get_label(lab) if cls == 'SC' else cat.get_id(lab)
-        labs = [int(names[i]) for i in form[1]]
+        labs = [int(names[i]) for i in form[-1]]
+        if kind == 'xlabels':
+            labs = labs[0] if form[1] == 'scalar:int' else _carry(form[1], labs)
         return cat.get_labels(labs) if cls == 'SC' else cat.get_ids(labs)
     if kind == 'chain':
         return apply_index(apply_index(cat, form[1], cls), form[2], cls)
-    raise KeyError(kind)
+    return cat[build_index(form)]
 
 
 def _is_seq(v):
@@ -446,16 +644,42 @@ def compare(p, got, exp):
 
 
 # ============================================================================ commutation template
+def kind_forms(n):
+    """One form per KIND of container: mask as a list of bools, positions as a narrow unsigned array, numpy scalar of
+    another width than the platform integer, 0-d array, documented tuple of labels."""
+    k = 1 if n > 1 else 0
+    return [['mask', 'list:bool', [1, 0, 1] + [0] * (n - 3) if n > 1 else [1]],
+            ['iseq', 'array:uint8', [2, 0] if n > 1 else [0]], ['iscalar', 'np.int32', k],
+            ['iscalar', 'array0d:int64', k], ['xlabels', 'tuple', [2, 0] if n > 1 else [0]]]
+
+
 def forms_for(pre, n, tier):
-    """Index forms explored with a pre-cache set: all of them, except that the quick tier pairs the single-attribute
-    pre-cache sets with 9 structurally different forms only."""
-    forms = index_forms(n)
-    if tier == 'thorough' or pre[0] != 'one' or n == 1:
-        return forms
+    """Index forms explored with a pre-cache set.
+    everything cached (every cached value -- arrays, Quantities, SkyCoords, lists, lists with None -- is re-sliced
+    with the index): the everyday forms and the complete value x container product, both tiers.
+    nothing cached / {p} cached: the same in the thorough tier; in the quick tier the everyday forms + one form per
+    container (nothing cached) resp. + one form per kind of container (``kind_forms``; {p} cached).
+    a single attribute q cached, thorough tier: everyday forms + one form per container (q private: the value the child
+    recomputes its public properties from) resp. + one form per kind of container (q public).  Quick tier (q private
+    only): 9 structurally different everyday forms + a mask given as a list of bools (``list[index]`` raises
+    TypeError for it and the fallback branch re-reads the index; ints, slices, integer lists / arrays and numpy
+    scalars (get_label) are among the 9)."""
+    if pre[0] == 'all' or (tier == 'thorough' and pre[0] in ('none', 'same')):
+        return index_forms(n)
+    base = base_forms(n)
+    reps = [f for f in representative_forms(n) if f not in base]
+    if pre[0] == 'none':
+        return base + reps
+    if pre[0] == 'same':
+        return base + kind_forms(n)
+    if tier == 'thorough':
+        return base + (reps if pre[1].startswith('_') else kind_forms(n))
+    if n == 1:
+        return base + kind_forms(n)[:1]
     keep = (['int', 0], ['int', -1], ['slice', 0, 2, None], ['slice', None, None, -1], ['list', [2, 0]],
             ['bool', [1, 0, 1] + [0] * (n - 3)], ['label', 1], ['chain', ['slice', 1, None, None], ['int', 0]],
             ['chain', ['list', [2, 0, 1]], ['label', 0]])
-    return [f for f in forms if f in keep]
+    return [f for f in base if f in keep] + kind_forms(n)[:1]
 
 
 def pre_sets(cls, variant, tier, seed):
@@ -517,7 +741,9 @@ def _raise_site(e):
 def run_trace(acc, cls, variant, pre, form, p, seed, report=True):
     """ONE history on fresh objects: build, pre-cache, index, evaluate p, compare.  Returns a violation tuple or None."""
     case = {'kind': 'commute', 'cls': cls, 'variant': variant, 'pre': pre, 'index': form, 'property': p}
-    sel = positions(form, list(range(nsources(cls, variant))))
+    st, sel = select(form, nsources(cls, variant))
+    if st != 'ok':
+        return None
     st, exp = expected(cls, variant, seed, p, sel)
     if st != 'ok':
         return None
@@ -532,10 +758,34 @@ def run_trace(acc, cls, variant, pre, form, p, seed, report=True):
         v = ('index-raises', _site(cls, form, pre, '__getitem__', sel), f'{type(e).__name__}: {e}', 'no exception')
         child = None
     if child is not None:
-        v = eval_compare(child, cls, p, exp, form, pre, sel)
+        v = wrong_selection(child, cls, variant, seed, form, sel) or eval_compare(child, cls, p, exp, form, pre, sel)
     if v and report:
         acc.violation(v[0], v[1], case, v[2], v[3], f'{cls} {variant}: pre-cache {pre}, index {form}, property {p}')
     return v
+
+
+def wrong_selection(child, cls, variant, seed, form, sel):
+    """Clause 'selection': the child must consist of exactly the sources that numpy selects with the same index from
+    the per-source array of names (``cat.labels[idx]`` / ``cat.ids[idx]``), in that order.  When it does not, every
+    property of the child is off for the same reason, so this is reported once (per kind of index) instead of once per
+    property.  Returns a violation tuple or None (also None when the names cannot be read: the per-property comparison
+    then says what is wrong)."""
+    name = 'labels' if cls == 'SC' else 'ids'
+    st, full = full_value(cls, variant, seed, name)
+    if st != 'ok':
+        return None
+    exp = np.atleast_1d(take(np.atleast_1d(full), sel))
+    try:
+        with warnings.catch_warnings():
+            warnings.simplefilter('ignore')
+            got = np.atleast_1d(getattr(child, name))
+            scalar = bool(child.isscalar)
+    except Exception:
+        return None
+    if got.shape != exp.shape or not np.array_equal(got, exp) or scalar != isinstance(sel, int):
+        return ('selection', f'{cls}.__getitem__:{form_tag(form)}',
+                f'{name} {got.tolist()} isscalar={scalar}', f'{name} {exp.tolist()} isscalar={isinstance(sel, int)}')
+    return None
 
 
 def _site(cls, form, pre, p, sel, cached_state=True):
@@ -576,7 +826,10 @@ def run_batch(acc, cls, variant, pre, form, seed):
     re-executed as a fresh single history (run_trace) and reported from there."""
     public, private = prop_lists(cls, variant, seed)
     n = nsources(cls, variant)
-    sel = positions(form, list(range(n)))
+    st, sel = select(form, n)
+    if st != 'ok':
+        acc.skip(f'index {form_tag(form)}: {sel}')
+        return
     parent = make(cls, variant, seed)
     do_pre(parent, pre, None, cls, variant, seed)
     try:
@@ -594,6 +847,15 @@ def run_batch(acc, cls, variant, pre, form, seed):
         acc.state_keys.add(k0)
     nsel = 1 if isinstance(sel, int) else len(sel)
     nontrivial = nsel >= 1 and (pre[0] != 'none' or isinstance(sel, int) or sel != sorted(sel))
+    if child is not None and wrong_selection(child, cls, variant, seed, form, sel):
+        # the child does not hold the selected sources: one finding, not one per property
+        acc.transitions += 3
+        acc.traces += 1
+        acc.case(nontrivial=nontrivial)
+        if not run_trace(acc, cls, variant, pre, form, 'labels' if cls == 'SC' else 'ids', seed):
+            acc.counters['batched_mismatch_not_reproduced_fresh'] += 1
+            acc.notes.append(f'batched wrong selection not reproduced by the fresh history: {cls} {variant} {pre} {form}')
+        return
     for p in public:
         st, exp = expected(cls, variant, seed, p, sel)
         if st != 'ok':
@@ -630,7 +892,10 @@ def run_batch(acc, cls, variant, pre, form, seed):
 def run_same(acc, cls, variant, form, seed):
     """pre-cache set {p}: one fresh history per p."""
     public, _ = prop_lists(cls, variant, seed)
-    sel = positions(form, list(range(nsources(cls, variant))))
+    st, sel = select(form, nsources(cls, variant))
+    if st != 'ok':
+        acc.skip(f'index {form_tag(form)}: {sel}')
+        return
     for p in public:
         st, exp = expected(cls, variant, seed, p, sel)
         if st != 'ok':
@@ -849,7 +1114,7 @@ def plan(tier, seed):
                     for f in forms:
                         units.append({'kind': 'same', 'cls': cls, 'variant': v, 'forms': [f]})
                 else:
-                    k = 2 if tier == 'thorough' else 1
+                    k = -(-len(forms) // 24)       # <= 24 index forms per unit
                     for j in range(k):
                         units.append({'kind': 'batch', 'cls': cls, 'variant': v, 'pre': pre, 'forms': forms[j::k]})
     for v, menu, depth in extras_plan(tier):
@@ -957,8 +1222,28 @@ def describe(tier, seed):
                                               'histories': nh}
             total += nh
     out['template_histories_total'] = total
-    out['index_forms_n4'] = index_forms(4)
-    out['index_forms_n6'] = index_forms(6)
+    out['index_forms_everyday_n4'] = base_forms(4)
+    out['index_forms_everyday_n6'] = base_forms(6)
+    out['index_containers'] = {'integer scalar': list(SCALAR_CONTAINERS), 'integer sequence': list(SEQ_CONTAINERS),
+                               'boolean mask': list(MASK_CONTAINERS), 'get_label/get_id argument': list(LABEL_CONTAINERS),
+                               'get_labels/get_ids argument': list(LABELS_CONTAINERS),
+                               'slice bounds': ['Python int', 'np.int64', 'negative', 'beyond the end']}
+    cf = container_forms(4)
+    out['index_forms_value_x_container_n4'] = {'count': len(cf), 'forms': [f for f in cf if select(f, 4)[0] == 'ok'],
+                                               'per_kind': {k: sum(1 for f in cf if f[0] == k) for k in
+                                                            ('mask', 'iseq', 'iscalar', 'slice', 'nslice', 'xlabel',
+                                                             'xlabels', 'chain')}}
+    # forms that are enumerated but are not a selection of >= 1 sources, with the reason (numpy's verdict)
+    rej = {}
+    for f in cf:
+        st_, why = select(f, 4)
+        if st_ != 'ok':
+            rej.setdefault(why, []).append(f)
+    out['index_forms_not_a_selection_n4'] = rej
+    out['index_forms_per_pre_cache_set'] = {
+        f'n={n}': {str(pre): len(forms_for(pre, n, tier)) for pre in
+                   (['none'], ['same'], ['all'], ['one', '_private'], ['one', 'public'])[:5 if tier == 'thorough' else 4]}
+        for n in (1, 3, 4, 6)}
     out['methods_with_arguments'] = {'SourceCatalog': list(SC_METHODS), 'ApertureStats': list(AS_METHODS)}
     out['hard6_sources'] = dict(zip(map(str, HARD6_LABELS), HARD6_KINDS))
     out['exceptional_sources'] = {v: exceptional_sources(v, seed) for v in SC_VARIANTS}
